@@ -19,7 +19,8 @@ RULE = ('cases = flat machines of the C01 generator with a DETERMINISTIC env (re
         'Non-trivial: some may_ call evaluated >= 1 failing check or >= 2 candidates; distinct by case hash.')
 ASSUMPTIONS = ['conditions are deterministic (the hypothesis of C12)',
                'the exception-routing clause of C12 is tied by correspondence only (no theorem yet)']
-THEOREMS = ['C12_pure', 'C12_iff', 'C12_iff_refuted', 'C12_nonvacuous', 'C12_hsm_pure']
+THEOREMS = ['C12_pure', 'C12_iff', 'C12_iff_refuted', 'C12_nonvacuous', 'C12_hsm_pure', 'C12_hsm_iff',
+            'C12_hsm_may_characterisation', 'C12_hsm_nonvacuous']
 
 
 def gen(rng, i, tier):
